@@ -94,4 +94,55 @@ theorem main (pb : Problem) (hwf : WellFormed pb) (P : PuzzleProg) (hP : program
 
 theorem total (pb : Problem) (hwf : WellFormed pb) : ∃ P, program pb = .ok P := ⟨_, program_eq hwf⟩
 
+/-! ### remark on rule 3 (not used by the theorem)
+
+For a cape and a number `n ≥ 2`, a direction in which the line of unshaded cells has exactly `n` cells is the
+direction of the cape's only unshaded neighbour: the `∃ d` of rule 3 in the spec is "the straight line that
+runs through its only unshaded neighbour" of the published text. -/
+
+theorem line_dir_unique {pb : Problem} (g : Nat → Nat → Bool) {y x : Nat}
+    (hc : Cape pb g y x) {d : Int × Int} (hd : d ∈ dirs) {n : Int} (hn : 2 ≤ n) (hl : LineIs pb g y x d n) :
+    onBoardWhite pb g ((y : Int) + d.1) ((x : Int) + d.2) ∧
+      ∀ d' ∈ dirs, onBoardWhite pb g ((y : Int) + d'.1) ((x : Int) + d'.2) → d' = d := by
+  have h1 := hl.1 1 (by omega) (by omega)
+  simp only [one_mul] at h1
+  refine ⟨h1, ?_⟩
+  intro d' hd' h2
+  have hw := hc.2
+  unfold whiteNbrs at hw
+  have U : onBoardWhite pb g ((y : Int) + -1) ((x : Int) + 0) → (0 < y ∧ g (y - 1) x = true) := by
+    intro h
+    have h0 := h.1
+    exact ⟨by omega, ((onBW_nat g _ _ (y - 1) x (by omega) (by omega)).1 h).2.2⟩
+  have D : onBoardWhite pb g ((y : Int) + 1) ((x : Int) + 0) → (y + 1 < pb.height ∧ g (y + 1) x = true) := by
+    intro h
+    have h0 := (onBW_nat g _ _ (y + 1) x (by omega) (by omega)).1 h
+    exact ⟨h0.1, h0.2.2⟩
+  have L : onBoardWhite pb g ((y : Int) + 0) ((x : Int) + -1) → (0 < x ∧ g y (x - 1) = true) := by
+    intro h
+    have h0 := h.2.2.1
+    exact ⟨by omega, ((onBW_nat g _ _ y (x - 1) (by omega) (by omega)).1 h).2.2⟩
+  have R : onBoardWhite pb g ((y : Int) + 0) ((x : Int) + 1) → (x + 1 < pb.width ∧ g y (x + 1) = true) := by
+    intro h
+    have h0 := (onBW_nat g _ _ y (x + 1) (by omega) (by omega)).1 h
+    exact ⟨h0.2.1, h0.2.2⟩
+  simp only [dirs, List.mem_cons, List.not_mem_nil, or_false] at hd hd'
+  rcases hd with rfl | rfl | rfl | rfl <;> rcases hd' with rfl | rfl | rfl | rfl
+  · rfl
+  · exact absurd hw (by rw [if_pos (U h1), if_pos (D h2)]; omega)
+  · exact absurd hw (by rw [if_pos (U h1), if_pos (L h2)]; omega)
+  · exact absurd hw (by rw [if_pos (U h1), if_pos (R h2)]; omega)
+  · exact absurd hw (by rw [if_pos (D h1), if_pos (U h2)]; omega)
+  · rfl
+  · exact absurd hw (by rw [if_pos (D h1), if_pos (L h2)]; omega)
+  · exact absurd hw (by rw [if_pos (D h1), if_pos (R h2)]; omega)
+  · exact absurd hw (by rw [if_pos (L h1), if_pos (U h2)]; omega)
+  · exact absurd hw (by rw [if_pos (L h1), if_pos (D h2)]; omega)
+  · rfl
+  · exact absurd hw (by rw [if_pos (L h1), if_pos (R h2)]; omega)
+  · exact absurd hw (by rw [if_pos (R h1), if_pos (U h2)]; omega)
+  · exact absurd hw (by rw [if_pos (R h1), if_pos (D h2)]; omega)
+  · exact absurd hw (by rw [if_pos (R h1), if_pos (L h2)]; omega)
+  · rfl
+
 end Cspuz.Proofs.C11Nurimisaki
